@@ -27,7 +27,7 @@ REGISTRATION = {
             "of every case.",
 }
 
-MODULES = ["OllamaVerif.Properties.C08"]
+MODULES = ["OllamaVerif.Properties.C08", "OllamaVerif.Tie.C08"]
 THEOREMS = [
     "OllamaVerif.C08.single_writer_crash_safe",
     "OllamaVerif.C08.single_writer_crash_safe_from_garbage",
@@ -49,7 +49,14 @@ THEOREMS = [
     "OllamaVerif.C08.link_then_resolve_fixed",
     "OllamaVerif.C08.history_blobs_valid",
     "OllamaVerif.C08.history_get_trusted",
+    # Tie 1: the Link theorems at the variant found in the tree (compile only for the repaired Link, fix 834f6be9a)
+    "OllamaVerif.Tie.C08.tree_link_is_fixed",
+    "OllamaVerif.Tie.C08.tree_link_then_resolve",
+    "OllamaVerif.Tie.C08.tree_link_requires_blob",
+    "OllamaVerif.Tie.C08.tree_relink_same_size_takes_effect",
 ]
+# theorems about the PINNED Link (before fix 834f6be9a): kept as the record of finding F8, not claims about the tree
+HISTORICAL = ["OllamaVerif.C08.link_then_resolve_partial", "OllamaVerif.C08.F8_relink_same_size_keeps_old"]
 OVERLAY = {"server/internal/cache/blob/zz_verif_c08_test.go": "server_internal_cache_blob/zz_verif_c08_test.go"}
 PKG = "./server/internal/cache/blob/"
 
@@ -65,9 +72,22 @@ def link_variant():
     return 1 if "os.Rename(" in body else 0
 
 
+def regenerate(variant):
+    body = ("-- REGENERATED on every run by vlib/checks/c08.py from /repo's working tree. Do not edit.\n"
+            "namespace OllamaVerif.Generated.C08\n"
+            "/-- does `DiskCache.Link` in the tree rename a verified temporary file over the link (true), or copy in place\n"
+            "    with copyNamedFile's same-size shortcut (false, finding F8)? -/\n"
+            f"def linkFixed : Bool := {'true' if variant else 'false'}\n"
+            "end OllamaVerif.Generated.C08\n")
+    core.write_generated("OllamaVerif/Generated/C08_LinkVariant.lean", body)
+
+
 def run(ctx):
-    ctx.lean_check(MODULES, THEOREMS)
     variant = link_variant()
+    regenerate(variant)
+    ctx.lean_check(MODULES, THEOREMS)
+    ctx.coverage["theorems_for_tree_link"] = [t for t in THEOREMS if ".Tie.C08." in t]
+    ctx.coverage["theorems_about_pinned_link_only"] = HISTORICAL
     ctx.coverage["link_variant"] = "repaired (temp+rename)" if variant else "pinned (in place)"
     env = {"VERIF_C08_FIXED": variant, "VERIF_N": ctx.scale(1200, 30000), "VERIF_NCONC": ctx.scale(1200, 20000),
            "VERIF_NCRASH": ctx.scale(40, 200)}
